@@ -143,7 +143,29 @@ const SCHEMAS = [
   S('bare', 'aloneMethod(@X@)'),
   S('bare', 'cantAloneMethod(@X@)'),
   S('bare', 'o.aloneMethod(@X@)'),
-  S('bare', 'aloneMethod(@X@, ...arr)')
+  S('bare', 'aloneMethod(@X@, ...arr)'),
+  // long tail of assignment targets and operand forms (each carries the class it needs)
+  S('assign', '(o[f()]) += @Y@'),
+  S('assign', '(g().p) += @Y@'),
+  S('assign', '((o.q[i++])) += @Y@'),
+  S('assign', 'new (class extends X { m() { return super.p += @Y@ } })().m()'),
+  S('assign', 'new (class extends X { m() { return super[k] += @Y@ } })().m()'),
+  S('assign', 'new (class extends X { m() { return super[f()] += @Y@ } })().m()'),
+  S('assign', 'new (class extends X { m() { return super[i++] += @Y@ } })().m()'),
+  S('assign', 'new (class { #q = a; m() { return this.#q += @Y@ } })().m()'),
+  S('assign', 'new (class { #q = o; m() { return this.#q.p += @Y@ } })().m()'),
+  S('assign', 'new (class { #q = o; m() { return g(this).#q[f()] += @Y@ } })().m()'),
+  S('assign', '(function () { return arguments[0] += @Y@ })(a)'),
+  S('assign', '(function () { return arguments[i++] += @Y@ })(a)'),
+  S('plus', 'new (class extends X { m() { return super.p + @Y@ } })().m()'),
+  S('method', 'new (class extends X { m() { return super.p.concat(@X@) } })().m()'),
+  S('method', 'new (class extends X { concat() { return a } m() { return super.concat(@X@) } })().m()'),
+  S('method', 'new (class { #q = a; m() { return this.#q.concat(@X@) } })().m()'),
+  S('plus', 'x ||= @X@ + @Y@'),
+  S('plus', 'o[f()] ??= @X@ + @Y@'),
+  S('plus', 'i++ + @Y@'),
+  S('plus', '@X@ + +@Y@'),
+  S('plus', '@X@ + -@Y@')
 ]
 
 // ---- G3 expression contexts ------------------------------------------------------------------------
